@@ -27,6 +27,7 @@ from gymnasium.spaces import Discrete
 
 import core
 import gridw
+import poke
 import oracle
 import wire
 
@@ -341,6 +342,8 @@ class SmartSession:
                 self.problems.append(f"{what}: instantiated {got}, requested {want(specs, cls_of)}")
         self.stat = self.rw.stat_wire()
         self.dyn0 = self.rw.dyn_wire()
+        for i, c in enumerate(self.done_list or []):
+            poke.rejected(c, [cfg, i])
 
     # ---- wire of the configuration (iteration order of the live sets) ------------------------
     def done_wire(self, inst):
@@ -762,6 +765,7 @@ class DoneProp(core.Prop):
                                f"{type(ex).__name__}: {ex}", {"kind": "comp", "world": world, "comp": comp})
             return None
         rw.finish()
+        poke.rejected(inst, [world, comp])
         if world.get("enc0"):
             extra_tags = list(extra_tags) + ["encodings-reassigned-after-construction"]
         if world.get("earlier") is not None and world.get("state") is not None:
